@@ -64,13 +64,20 @@ func (c *char) enhancedBasic(target key.TargetID, state info.ActionState) {
 	c.risingUppercut(target)
 
 	for _, dot := range c.engine.GetModifiersByBehaviorFlag(target, model.BehaviorFlag_STAT_DOT_BLEED) {
-		dot.State.(common.TriggerableDot).TriggerDot(dot, talentRatio[c.info.TalentLevelIndex()], c.engine, target)
+		// not every bleed carries a triggerable state
+		if td, ok := dot.State.(common.TriggerableDot); ok {
+			td.TriggerDot(dot, talentRatio[c.info.TalentLevelIndex()], c.engine, target)
+		}
 	}
 
 	if c.info.Eidolon >= 6 {
 		for _, dot := range c.engine.GetModifiersByBehaviorFlag(target, model.BehaviorFlag_STAT_DOT_BLEED) {
+			td, ok := dot.State.(common.TriggerableDot)
+			if !ok {
+				continue
+			}
 			for k := 0; k < (punchCount + extraPunchCount); k++ {
-				dot.State.(common.TriggerableDot).TriggerDot(dot, 0.08, c.engine, target)
+				td.TriggerDot(dot, 0.08, c.engine, target)
 			}
 		}
 	}
